@@ -9,6 +9,7 @@ import ast
 import builtins
 import collections
 import datetime as _dtm
+import sys
 import functools
 import inspect
 import itertools
@@ -1168,6 +1169,18 @@ class Interp:
         if isinstance(fn, type) and issubclass(fn, BaseException):
             return fn(*[a if self.concrete(a) else "<symbolic>" for a in args])
         slf = getattr(fn, "__self__", None)
+        if isinstance(slf, (_dtm.datetime, _dtm.time)) and getattr(fn, "__name__", "") == "strftime" and len(args) == 1 and isinstance(args[0], str) and "%:z" in args[0] and sys.version_info < (3, 12):
+            # the checks run the engine on Python 3.11, the repository's interpreter is 3.12: "%:z" (3.12) is the UTC offset with a colon
+            off = slf.utcoffset()
+            if off is None:
+                txt = ""
+            else:
+                sign = "-" if off < _dtm.timedelta(0) else "+"
+                off = abs(off)
+                hh, rem = divmod(off, _dtm.timedelta(hours=1))
+                mm, ss = divmod(rem, _dtm.timedelta(minutes=1))
+                txt = f"{sign}{hh:02d}:{mm:02d}" + (f":{ss.seconds:02d}" if ss.seconds or ss.microseconds else "") + (f".{ss.microseconds:06d}" if ss.microseconds else "")
+            args = [args[0].replace("%:z", txt.replace("%", "%%"))]
         if isinstance(slf, (set, frozenset)) and getattr(fn, "__name__", "") in ("isdisjoint", "issubset", "issuperset", "intersection", "union", "difference", "__and__", "__or__", "__sub__") and not kwargs \
                 and all(isinstance(a, (dict, collections.OrderedDict)) and all(self.concrete(k) for k in a) for a in args if isinstance(a, dict)) and any(isinstance(a, dict) for a in args):
             # set algebra against a mapping looks at the mapping's keys only
